@@ -393,6 +393,8 @@ class Summariser:
                 base = base[5:-1]
             elif base.startswith("not ") and base[4:] in self.atoms:
                 base = base[4:]
+            if base not in self.atoms and neg_text(base) in self.atoms:
+                base = neg_text(base)  # the condition is registered in its canonical (negative) orientation
             if base in self.atoms and "_i" not in base and "_e" not in base:
                 return base
         if isinstance(v, Seq):
@@ -407,7 +409,7 @@ class Summariser:
 
     def _specialise(self, p, ctext, branch: bool):
         v = p.value_obj
-        if isinstance(v, Term) and v.kind == "bool" and p.kind == "return" and v.text in (ctext, "not " + ctext, f"not ({ctext})"):
+        if isinstance(v, Term) and v.kind == "bool" and p.kind == "return" and v.text in (ctext, "not " + ctext, f"not ({ctext})", neg_text(ctext)):
             truth = branch if v.text == ctext else not branch
             p.value_obj = Term(repr(truth))
             p.value = repr(truth)
@@ -541,8 +543,8 @@ class Summariser:
         """try/except/else/finally at top level: the protected body either completes (then `else`, `finally`, the rest) or
         an exception of one of the handled types interrupts it somewhere (the handler then starts from a state in which
         everything the body assigns is unknown and a prefix of the body's effects may have happened)."""
-        self.try_id = getattr(self, "try_id", 0) + 1
-        k = self.try_id
+        k = state.env.get("__t__", 0) + 1  # numbered along the path, like loops
+        state.env["__t__"] = k
         final = list(st.finalbody)
         ok_cont = list(st.orelse) + final + list(rest)
         body_tree = self.block(list(st.body), state.fork())
@@ -624,6 +626,8 @@ class Summariser:
                 return d
             if s.term == "continue":
                 return State(dict(s.env), list(s.effects))
+            if s.term == "leave":
+                raise Unsupported("an inlined helper returns from inside a loop into the middle of its caller")
             return s
         a, b = self.collapse(tree.t, loop_body), self.collapse(tree.f, loop_body)
         return self.merge(tree.cond, a, b)
@@ -686,7 +690,7 @@ class Summariser:
         env = {}
         for name in set(a.env) | set(b.env):
             va, vb = a.env.get(name), b.env.get(name)
-            if name == "__k__":
+            if name in ("__k__", "__t__"):
                 env[name] = max(va or 0, vb or 0)
                 continue
             if name == "__loops__":
